@@ -888,6 +888,11 @@ func (a *align) TranslateByReference(phase int, geneticcode int, refseq string) 
 	}
 
 	alen = a.Length()
+	// As for Translate: there must be at least one codon starting at phase
+	if alen < 3+phase {
+		err = fmt.Errorf("cannot translate an alignment with length < 3+phase")
+		return
+	}
 	nseq = a.NbSequences()
 	oldseqs = a.seqs
 	newseqbuffer = make([]bytes.Buffer, nseq)
